@@ -4,7 +4,7 @@
 From V.lib Require Import Base.
 From V.c09 Require Import C09Model C09Spec C09Theorems.
 From V.c10 Require Import C10Model C10RlProofs C10CttsProofs C10StscProofs C10ConsProofs C10EndProofs C10LayoutProofs
-  C10TermProofs C10OutProofs C10E2EProofs C10C09Proofs C10CropProofs.
+  C10TermProofs C10OutProofs C10E2EProofs C10C09Proofs C10CropProofs C10FileModel C10FullProofs C10SizeProofs.
 
 (* the hypotheses are satisfiable: C09's 7-sample example table with a cut inside a run, a chunk and a ctts entry *)
 Example ex_crop : consistent ex_tb = true /\
@@ -385,3 +385,178 @@ Theorem C10_crop_to_time : forall file traks et ets S pre hdr shifted ranges ks,
             (map static ts0) shifted.
 Proof. exact crop_to_time_full. Qed.
 Print Assumptions C10_crop_to_time.
+
+(* ================================================================================================================
+   SECOND ROUND: cropMP4 as a whole (crop_mp4_file / crop_mp4_output of C10FileModel.v)
+   ================================================================================================================ *)
+
+(* C10_layout / C10_layout_total assume NOTHING about the order of the chunk offsets: static_ok only asks every chunk to lie
+   inside the file at an offset in [1, 2^62).  The loop always takes the smallest next offset over the tracks, writes the
+   chunks in the order it takes them and never merges two ranges unless the second starts right after the first.  A layout
+   with offsets DEcreasing inside a track (300, 120, 100, 103), chunks of two tracks sharing bytes (100..105 / 104..105 /
+   105..106 / 103..106), a zero-size chunk (120, sample of size 0) and adjacent chunks satisfies every hypothesis; the
+   overlapping bytes are simply copied twice. *)
+Definition wild_t1 : tables :=
+  mkTables [4] [10] None (mkStsc [mkEntry 1 1 1] 1 []) (mkStsz 0 4 [5; 0; 6; 4]) (Some [300; 120; 100; 103]) None None None.
+Definition wild_t2 : tables :=
+  mkTables [3] [10] None (mkStsc [mkEntry 1 1 1] 1 []) (mkStsz 2 3 []) None (Some [105; 104; 305]) None None.
+Definition wild_ts0 : list trak_state := [mkTS 1 wild_t1 4 4 1 []; mkTS 2 wild_t2 3 3 1 []].
+Example ex_wild_layout : forallb (static_okb ex_file) wild_ts0 = true /\
+  (4611686018427387904 + pot wild_ts0 <? 18446744073709551616) = true /\
+  exists ts', fill_loop (fill_fuel wild_ts0) wild_ts0 [] 0 0 =
+    Ok (ts', [(105, 106); (104, 105); (300, 304); (120, 119); (100, 105); (103, 106); (305, 306)], 105) /\
+    map ts_offsets ts' = [[109; 114; 114; 120]; [105; 107; 124]].
+Proof. split; [vm_compute; reflexivity|]. split; [vm_compute; reflexivity|]. eexists. vm_compute. split; reflexivity. Qed.
+
+(* findEndTime chooses the FIRST track whose handler is "vide", else the FIRST whose handler is "soun" *)
+Theorem C10_reference_track : forall hs ref, find_sync_trak hs = Some ref -> ref_choice hs ref /\ In ref (map th_trak hs).
+Proof. exact find_sync_trak_choice. Qed.
+Print Assumptions C10_reference_track.
+
+(* findEndTime succeeded: the end time is the start of the first sync sample (every sample when there is no stss) that starts
+   at or after r = floor(ms * timescale / 1000) — except, without stss, when no sample starts at or after r: then it is the end
+   of the track (cropMP4 as a whole then fails: C10_crop_end_to_end has no such case) *)
+Theorem C10_end_time_inv : forall tb ts ms et, consistent tb = true -> deltas_strict tb = true -> 1 <= nsamples tb ->
+  find_end_time tb ts ms = Ok et ->
+  u64 (ms * ts) / 1000 < sumN (durs tb) /\
+  (first_sync_from tb (u64 (ms * ts) / 1000) et \/ (t_stss tb = None /\ et = sumN (durs tb))).
+Proof. exact find_end_time_inv. Qed.
+Print Assumptions C10_end_time_inv.
+
+(* C10-F6, the exact guard: when ms milliseconds are a whole number of track units the end time is the property's own
+   (exact comparison start/timescale >= ms/1000); without the guard it can lie before the request *)
+Theorem C10_end_time_exact : forall tb ts ms T, ms * ts < 18446744073709551616 -> (ms * ts) mod 1000 = 0 ->
+  first_sync_from tb (u64 (ms * ts) / 1000) T -> first_sync_exact tb ts ms T.
+Proof. exact first_sync_exact_of. Qed.
+Print Assumptions C10_end_time_exact.
+Theorem C10_end_time_exact_refuted :
+  exists tb ts ms T, consistent tb = true /\ deltas_strict tb = true /\ find_end_time tb ts ms = Ok T /\ T * 1000 < ms * ts.
+Proof. exact end_time_before_request. Qed.
+Print Assumptions C10_end_time_exact_refuted.
+
+(* C10-F7, the exact guard: k_t counts the samples starting before floor(T * timescale_t / timescale_ref); that is the exact
+   count (start/timescale_t < T/timescale_ref) when the timescales are equal or the rescaled end time is a whole number *)
+Theorem C10_k_exact : forall tb ts et ets, 0 < ets -> et * ts < 18446744073709551616 -> (et * ts) mod ets = 0 ->
+  k_of tb (u64 (et * ts) / ets) = k_exact tb ts et ets.
+Proof. exact k_of_exact. Qed.
+Print Assumptions C10_k_exact.
+Theorem C10_k_same_timescale : forall tb ts et, 0 < ts -> k_of tb et = k_exact tb ts et ts.
+Proof. exact k_of_same. Qed.
+Print Assumptions C10_k_same_timescale.
+Theorem C10_k_exact_refuted :
+  exists tb ts et ets k t c, consistent tb = true /\ deltas_strict tb = true /\
+    find_trak_end tb ts et ets = Ok (k, t, c) /\ k = 36 /\ k_exact tb ts et ets = 37.
+Proof. exact k_rounding_refuted. Qed.
+Print Assumptions C10_k_exact_refuted.
+
+(* the sizes of the table boxes (C10FileModel) are C01's Size() of the same boxes *)
+Theorem C10_table_sizes_c01 :
+  (forall v f es, C01Model.size_leaf (C01Model.LStts v f es) = stts_box_size (map fst es)) /\
+  (forall v f ends offs zoffs, lenN zoffs = lenN offs ->
+     C01Model.size_leaf (C01Model.LCtts v f ends offs) = ctts_box_size (mkCtts ends zoffs)) /\
+  (forall v f es single ids ents, lenN ents = lenN es ->
+     C01Model.size_leaf (C01Model.LStsc v f es single ids) = stsc_box_size (mkStsc ents single ids)) /\
+  (forall v f uni num ss, C01Model.size_leaf (C01Model.LStsz v f uni num ss) = stsz_box_size (mkStsz uni num ss)) /\
+  (forall v f es, C01Model.size_leaf (C01Model.LSdtp v f es) = sdtp_box_size es) /\
+  (forall name v f items, C01Model.size_leaf (C01Model.LTab name 4 v f items) = stco_box_size items) /\
+  (forall name v f items, C01Model.size_leaf (C01Model.LTab name 4 v f items) = stss_box_size items) /\
+  (forall name v f items, C01Model.size_leaf (C01Model.LTab name 8 v f items) = co64_box_size items).
+Proof.
+  exact (conj stts_size_c01 (conj ctts_size_c01 (conj stsc_size_c01 (conj stsz_size_c01 (conj sdtp_size_c01
+         (conj stco_size_c01 (conj stss_size_c01 co64_size_c01))))))).
+Qed.
+Print Assumptions C10_table_sizes_c01.
+
+(* updateChunkOffsets computes sizeWithoutMdat from the CROPPED tables; shifting the offsets resizes nothing, so the size used
+   is the size of the tables written *)
+Theorem C10_size_without_mdat : forall traks et ets rest shifted ranges ks swm,
+  crop_to_time_sz traks et ets rest = Ok (shifted, ranges, ks, swm) ->
+  crop_to_time traks et ets swm = Ok (shifted, ranges, ks) /\ swm = size_without_mdat rest shifted.
+Proof. exact crop_to_time_sz_ok. Qed.
+Print Assumptions C10_size_without_mdat.
+
+(* writeMdat succeeded (lazy mode, the tool's): fewer than 2^32-8 bytes, and exactly header ++ bytes of the ranges *)
+Theorem C10_write_mdat_inv : forall file zeof startPos large payloadLen rs mb,
+  0 < payloadLen -> lenN file < 9223372036854775808 -> Forall (range_in file) rs ->
+  ranges_len rs + 8 < 18446744073709551616 ->
+  write_mdat file zeof (C08Model.mdat_lazy startPos large payloadLen) rs = Ok mb ->
+  ranges_len rs + 8 < 4294967296 /\
+  mb = C08Model.be32 (ranges_len rs + 8) ++ C08Model.name_mdat ++ out_bytes file rs.
+Proof. exact write_mdat_lazy_inv. Qed.
+Print Assumptions C10_write_mdat_inv.
+
+(* writeMdat when the input mdat was decoded into memory (File.Mdat.Data; C08's mem_slice model of CopyData): the same
+   bytes, for ranges that start INSIDE the input mdat's payload; the two modes differ on an empty range at the very end of
+   the payload (lazy: nothing copied; in memory: "invalid range", a refusal) *)
+Example ex_write_mdat_mem :
+  C08Spec.box_in_file ex_file 20 true 300 = true /\ Forall (range_in_mdat 20 true 300) [(100, 103); (200, 200)] /\
+  write_mdat ex_file false (C08Model.mdat_mem ex_file 20 true 300) [(100, 103); (200, 200)]
+  = Ok [0; 0; 0; 13; 109; 100; 97; 116; 7; 7; 7; 7; 7].
+Proof.
+  split; [vm_compute; reflexivity|]. split; [|vm_compute; reflexivity].
+  repeat constructor; cbn; lia.
+Qed.
+Theorem C10_write_mdat_mem : forall file zeof startPos large payloadLen rs,
+  C08Spec.box_in_file file startPos large payloadLen = true ->
+  Forall (range_in_mdat startPos large payloadLen) rs -> ranges_len rs + 8 < 4294967296 ->
+  write_mdat file zeof (C08Model.mdat_mem file startPos large payloadLen) rs
+  = Ok (C08Model.be32 (ranges_len rs + 8) ++ C08Model.name_mdat ++ out_bytes file rs) /\
+  lenN (out_bytes file rs) = ranges_len rs.
+Proof. exact write_mdat_mem_correct. Qed.
+Print Assumptions C10_write_mdat_mem.
+Theorem C10_write_mdat_modes_differ :
+  exists file rs, write_mdat file false (C08Model.mdat_lazy 20 false 80) rs
+                  = Ok (C08Model.be32 12 ++ C08Model.name_mdat ++ out_bytes file rs) /\
+                  write_mdat file false (C08Model.mdat_mem file 20 false 80) rs = Err.
+Proof. exact write_mdat_modes_differ. Qed.
+Print Assumptions C10_write_mdat_modes_differ.
+
+(* THE PROPERTY, END TO END, about cropMP4 = findEndTime -> findTrakEnds -> fillTrakOutsAndByteRanges -> cropStblChildren ->
+   updateChunkOffsets (sizeWithoutMdat from the cropped tables) -> [non-mdat boxes] -> writeMdat.
+   Input: any number of tracks with handler types; trak_wf per track = static_ok (consistent tables, track id <> 0, chunk
+   offsets in [1,2^62) in ANY order, chunks inside the file), every stts delta positive, at least one sample, 32-bit
+   timescale; ms = the requested duration; rest = the bytes of the non-mdat boxes other than the eight table boxes.
+   NOTHING is assumed about the end time: that it lies inside every track follows from the tool succeeding.
+   Whenever crop_mp4_file succeeds and writeMdat (lazy input mdat) succeeds, with pre = the encoded non-mdat boxes
+   (any bytes of the length Size() gives them: rest + the table boxes of the OUTPUT tables):
+   * the reference track is the first "vide" track, else the first "soun" track; endTimescale is its timescale;
+   * T = et is the start of the first sync sample of the reference track starting at or after floor(ms*timescale/1000)
+     (C10-F6: exact under C10_end_time_exact's guard), and that sample is not sample 1;
+   * the output file is  pre ++ (32-bit size, "mdat") ++ the byte ranges, under 4 GiB of payload, and sizeWithoutMdat = |pre|;
+   * for every track t (out_track): tet = the end time rescaled as findTrakEnds does (C10-F7: exact under C10_k_exact's
+     guard) lies inside the track, k_t = number of samples of t starting before tet is >= 1, and the output tables are
+     consistent, hold k_t samples, every per-sample list is the k_t-prefix of the input's, every chunk offset o has
+     |pre| + 8 <= o and o + kept chunk bytes <= |pre| + 8 + payload ("chunk offsets point inside the new mdat" of the real
+     layout), and every kept sample read through the OUTPUT tables yields the input's bytes. *)
+Definition e2e_hs : list trak_h :=
+  [mkTH 1 (mkTI 2 500 (mkTables [4] [10] None (mkStsc [mkEntry 1 2 1] 1 []) (mkStsz 3 4 []) None (Some [150; 250]) None None));
+   mkTH 0 (mkTI 1 1000 ex_tb)].
+Example ex_e2e : Forall (trak_wf ex_file) (map th_trak e2e_hs) /\
+  exists sh rg, crop_mp4_file e2e_hs 45 60 = Ok (50, 1000, (sh, rg, [3; 4], 364)) /\
+                60 + sumN (map stbl_var_size sh) = 364 /\ map stbl_var_size sh = [116; 188].
+Proof.
+  split.
+  - constructor; [|constructor; [|constructor]].
+    + split; [apply static_okb_ok; vm_compute; reflexivity|]. split; [vm_compute; reflexivity|].
+      split; vm_compute; [intros H; discriminate H|reflexivity].
+    + split; [apply static_okb_ok; vm_compute; reflexivity|]. split; [vm_compute; reflexivity|].
+      split; vm_compute; [intros H; discriminate H|reflexivity].
+  - eexists. eexists. vm_compute. repeat split.
+Qed.
+Theorem C10_crop_end_to_end :
+  forall file zeof startPos large payloadLen hs ms rest pre et ets shifted ranges ks swm outf,
+  Forall (trak_wf file) (map th_trak hs) ->
+  4611686018427387904 + 2 * total_bytes (map th_trak hs) < 18446744073709551616 ->
+  0 < payloadLen -> lenN file < 9223372036854775808 ->
+  crop_mp4_file hs ms rest = Ok (et, ets, (shifted, ranges, ks, swm)) ->
+  lenN pre = rest + sumN (map stbl_var_size shifted) ->
+  lenN pre + mdat_out_hdr + 2 * total_bytes (map th_trak hs) < 18446744073709551616 ->
+  crop_mp4_output file zeof (C08Model.mdat_lazy startPos large payloadLen) pre ranges = Ok outf ->
+  exists ref hdr, ref_choice hs ref /\ ets = ti_ts ref /\ swm = lenN pre /\
+    first_sync_from (ti_tb ref) (u64 (ms * ti_ts ref) / 1000) et /\
+    outf = pre ++ hdr ++ out_bytes file ranges /\
+    hdr = C08Model.be32 (lenN (out_bytes file ranges) + 8) ++ C08Model.name_mdat /\
+    lenN (out_bytes file ranges) + 8 < 4294967296 /\
+    Forall2 (out_track file outf (lenN pre) (lenN (out_bytes file ranges)) et ets) (map th_trak hs) shifted.
+Proof. exact crop_end_to_end. Qed.
+Print Assumptions C10_crop_end_to_end.
